@@ -170,3 +170,8 @@ Print Assumptions C18_matcher_complete.
 Theorem C18_number_shape : forall s, accepts RegexGen.cm_RE_NUM s = true <-> float_grammar s.
 Proof. exact num_accepts. Qed.
 Print Assumptions C18_number_shape.
+
+(* every whole-string pattern ^X\Z with X free of look-around accepts exactly the language of X *)
+Theorem C18_anchored_pattern_is_language : forall X s, plain X = true -> accepts (Seq AtStart (Seq X AtEndStrict)) s = true <-> L X s.
+Proof. exact anchored_accepts. Qed.
+Print Assumptions C18_anchored_pattern_is_language.
